@@ -57,13 +57,13 @@ CLAIMED = {
             "DESIGN.md §5 C08"),
     "C09": (ENGINE_A, "exploration",
             "seeded simulation of adaptive chains with fault-injected rejected draws; window invariants checked on the strategy's counters (hook H4) after every draw, step-size search re-run seen at the Math seam",
-            "Seeded search over num_tune 3..300, early/final window fractions, early/main switch frequencies, update frequency, growth factors 1..3, Diag/LowRank x NUTS/MCLMC and histories with every mixture of accepted and rejected draws (divergences injected by the density stub, hard targets). After every draw: the estimator counts move only as the history allows; a switch happens only with a full window AND room for the next (observed) window before the final step-size window; no switch is missed when even the largest admissible next window fits; foreground-background is constant between switches (no stale draws); windows are early-sized in the early phase and grow geometrically afterwards; nothing is touched in the final window; the first transformation change re-runs the step-size search and later ones do not.",
+            "Seeded search over num_tune 3..300, early/final window fractions, early/main switch frequencies, update frequency, growth factors 1..3, Diag/LowRank x NUTS/MCLMC and histories with every mixture of accepted and rejected draws (divergences injected by the density stub, hard targets). After every draw: the estimator counts move only as the history allows; a switch happens only with a full window AND room for the next (observed) window before the final step-size window; no switch is missed when even the largest admissible next window fits; foreground-background is constant between switches (no stale draws); for the diagonal strategy every reported transformation (scales and mean) equals the estimate computed by a reference from exactly the (draw, gradient) pairs of the current foreground window (a draw from before the last two switches would show); windows are early-sized in the early phase and grow geometrically afterwards; nothing is touched in the final window; the first transformation change re-runs the step-size search and later ones do not.",
             "Needs hook H4 (read-only counters). The rounding of the growth and the update frequency on non-switch draws are deliberately not pinned down. The symmetric statistic in the final window is covered by C07.",
             "DESIGN.md §5 C09, Appendix B"),
     "C10": (ENGINE_B, "exploration",
             "real Sampler as shuttle tasks under the harness's seeded scheduler; bitwise trace comparison against the system's own uninterrupted run",
-            "Seeded search over thread interleavings (sticky-random and PCT-like scheduler personalities), num_cores 1..4, num_chains 1..6, six presets, user scripts with pause/resume/progress/flush/inspect at seeded points; every execution's per-chain records must equal, bit for bit, the uninterrupted single-core FIFO run, runs with one chain more/fewer must agree on the common chains, and no two chains may produce the same draws.",
-            "rayon is replaced by a FIFO worker-pool stand-in and std sync/thread/time by shuttle models + a simulated clock (nuts_rs_verif_rt); bounds: <=6 chains, <=16 draws per chain, dimension <=3.",
+            "Seeded search over thread interleavings (sticky-random and PCT-like scheduler personalities), num_cores 1..4, num_chains 1..6, six presets, user scripts with pause/resume/progress/flush/inspect at seeded points; every execution's per-chain records must equal, bit for bit, the uninterrupted single-core FIFO run, runs with one chain more/fewer must agree on the common chains, and no two chains may produce the same draws. A small batch uses models with 2^16..2^18 parameters (work the math back-end would only split up for large vectors).",
+            "rayon is replaced by a FIFO worker-pool stand-in and std sync/thread/time by shuttle models + a simulated clock (nuts_rs_verif_rt); bounds: <=6 chains, <=16 draws per chain, dimension <=3 (wide batch: <=2 chains, <=5 draws). Work handed to rayon's global pool by code other than the sampler would run on 3 real threads outside the scheduler: detected as a trace difference, not replayable exactly.",
             "DESIGN.md §5 C10"),
     "C11": (ENGINE_B, "exploration",
             "real Sampler under the seeded scheduler; deadlock/livelock detection and history oracles over global event sequence numbers",
@@ -77,7 +77,7 @@ CLAIMED = {
             "DESIGN.md §5 C12"),
     "C13": (ENGINE_B, "fault_enumeration",
             "real Sampler under the seeded scheduler with fault injection at every fault position of each base run",
-            "For each sampled base run every fault position is injected in turn (unrecoverable/recoverable density error at every evaluation of every chain, storage record/finalize/flush/inspect/new_trace/initialize errors at every call, Model::math and init_position failures, first n / all initialisation attempts failing), each under several schedules, plus batches with 2-3 simultaneous faults; a fired fatal fault must surface as Err through wait_timeout/abort, never as panic, hang or success; recoverable faults never end a chain.",
+            "For each sampled base run every fault position is injected in turn (unrecoverable/recoverable density error at every evaluation of every chain, storage record/finalize/flush/inspect/new_trace/initialize errors at every call, Model::math and init_position failures, first n / all initialisation attempts failing), each under several schedules, plus batches with 2-3 simultaneous faults; a fired fatal fault must surface as Err through wait_timeout/abort, never as panic, hang or success; recoverable faults never end a chain. The real sync and async Zarr backends are driven over a store whose k-th write fails (k over the whole run or counted back from the last write): some backend call must return Err, none may panic.",
             "Base runs are sampled (seeded), positions within a base run are enumerated (strided beyond 48 evaluations per chain). abort() returning Ok after a chain error is counted, not flagged.",
             "DESIGN.md §5 C13"),
     "C14": (ENGINE_C, "exploration",
